@@ -218,6 +218,78 @@ fn duplicate_case(ctx: &Ctx, tape: &[u8], rec: &Rec) -> Verdict {
     res
 }
 
+/// Two independent named files with the same layout (the second is a copy of the first whose definition
+/// names are changed to other names of the same length): analysed together, in either order, they
+/// display exactly the findings of each file analysed alone.
+fn twin_case(ctx: &Ctx, tape: &[u8], rec: &Rec) -> Verdict {
+    let mut t = Tape::new(tape);
+    let p = gen_project(&mut t, ProjOpts { max_files: 1, max_defs: 3, main_component: false, sugar_chance: 60, ..ProjOpts::default() });
+    let f = &p.files[0];
+    // names are `T0x<k>` / `f0x<k>`: the twin uses `T7x<k>` / `f7x<k>` (same lengths, so every offset is the same)
+    let mut twin = f.r.src.clone();
+    for d in &f.ast.defs {
+        let new_name = d.name.replacen('0', "7", 1);
+        twin = replace_word(&twin, &d.name, &new_name);
+    }
+    if twin.len() != f.r.src.len() {
+        return Ok(());
+    }
+    let dir = scratch(ctx, "c17t");
+    let res = (|| -> Verdict {
+        let a = dir.join("a.circom");
+        let b = dir.join("b.circom");
+        std::fs::write(&a, &f.r.src).map_err(|e| Bad::new(format!("INFRA write: {e}")))?;
+        std::fs::write(&b, &twin).map_err(|e| Bad::new(format!("INFRA write: {e}")))?;
+        let Some(oa) = observe(ctx, &[a.clone()], &dir)? else { return Ok(()) };
+        let Some(ob) = observe(ctx, &[b.clone()], &dir)? else { return Ok(()) };
+        rec.class("twin_file_pairs");
+        if !oa.exact.is_empty() {
+            rec.nontrivial(fnv(f.r.src.as_bytes()));
+        }
+        let mut want = oa.exact.clone();
+        for (k, n) in &ob.exact {
+            *want.entry(k.clone()).or_insert(0) += n;
+        }
+        for files in [vec![a.clone(), b.clone()], vec![b.clone(), a.clone()]] {
+            let Some(both) = observe(ctx, &files, &dir)? else { continue };
+            rec.class("twin_runs");
+            if both.exact != want {
+                let (lost, gained) = diff(&want, &both.exact);
+                return Err(Bad::new(format!(
+                    "two independent files analysed together do not display the findings of each file alone: lost {lost:?}; gained {gained:?}"
+                ))
+                .sig("C17:files-not-independent"));
+            }
+        }
+        Ok(())
+    })()
+    .map_err(|e| if e.rendered.is_empty() { e.rendered(format!("--- a.circom\n{}\n--- b.circom\n{twin}", f.r.src)) } else { e });
+    let _ = std::fs::remove_dir_all(&dir);
+    res
+}
+
+/// Replace the identifier `from` by `to` (whole words only).
+fn replace_word(text: &str, from: &str, to: &str) -> String {
+    let is_id = |c: char| c.is_ascii_alphanumeric() || c == '_' || c == '$';
+    let mut out = String::with_capacity(text.len());
+    let mut i = 0;
+    let b = text.as_bytes();
+    while i < b.len() {
+        if text[i..].starts_with(from)
+            && (i == 0 || !is_id(text[..i].chars().last().unwrap()))
+            && text[i + from.len()..].chars().next().map(|c| !is_id(c)).unwrap_or(true)
+        {
+            out.push_str(to);
+            i += from.len();
+        } else {
+            let c = text[i..].chars().next().unwrap();
+            out.push(c);
+            i += c.len_utf8();
+        }
+    }
+    out
+}
+
 /// Committed reproducer directory: `d1.circom d2.circom` (library) and `d3.circom d2.circom`
 /// (program) are each run 16 times; all runs must display the same findings.
 fn replay_known(ctx: &Ctx, k: &Known) -> Verdict {
@@ -442,6 +514,7 @@ pub fn replay(ctx: &Ctx, check: &str, tape: &[u8]) -> Verdict {
             }
         }
         "duplicate_names" => duplicate_case(ctx, tape, &rec),
+        "twin_files" => twin_case(ctx, tape, &rec),
         _ => Err(Bad::new(format!("unknown check {check}"))),
     }
 }
@@ -460,6 +533,8 @@ pub fn run(ctx: &Ctx) -> i32 {
     let fails = run_tapes_opts(ctx, "projects", ctx.tier.pick(1_500, 15_000), 3000, 60, &stats, |tape, rec| case(ctx, tape, rec));
     outcome.absorb(&known, fails);
     let fails = run_tapes_opts(ctx, "duplicate_names", ctx.tier.pick(160, 3_000), 3000, 40, &stats, |tape, rec| duplicate_case(ctx, tape, rec));
+    outcome.absorb(&known, fails);
+    let fails = run_tapes_opts(ctx, "twin_files", ctx.tier.pick(200, 3_000), 3000, 40, &stats, |tape, rec| twin_case(ctx, tape, rec));
     outcome.absorb(&known, fails);
     finish(
         ctx,
